@@ -1087,3 +1087,11 @@ Proof.
   - eapply follower_session_unchanged; eauto.
   - eapply leader_session_updated; eauto.
 Qed.
+
+(* non-vacuity of keys_injective: two differently ordered group lists are one subject and one key *)
+Example keys_injective_nv :
+  let q1 := QGroups AGroupMembership [bA; 64; bB] [[bB]; [bA]] in
+  let q2 := QGroups AGroupMembership [bA; 64; bB] [[bA]; [bB]] in
+  q1 <> q2 /\ wf_question q1 = true /\ wf_question q2 = true /\ guard q1 = true /\ guard q2 = true /\
+  wrapper_key q1 = wrapper_key q2 /\ subject_of q1 = subject_of q2.
+Proof. repeat split; try reflexivity. discriminate. Qed.
